@@ -62,6 +62,64 @@ CHECKS = {
             "0..127+, all ordered pairs of 105 / 1 050 notes x 6 operators, 128 notes x 5 / 201 standard pitches x detuning grid "
             "-40..40 cents (step 10 / 1), velocity/channel bounds through five entry points, malformed names, copy independence.",
             "trusted: integer pitch model, math.pow for the Hz expectation", "4 C10"),
+    "C11": ("Note.transpose and container/bar/track transposition driven and compared entry by entry with deep snapshots and an integer pitch model",
+            "Exploration: names (<= 2 / <= 3 accidentals) x octaves {0,1,4,8} / 0..9 x shorthands of size 0..11 x up/down with the "
+            "restore identity; 300 / 5 000 random tracks x 1-5 transposition / augment / diminish steps at track, bar or container "
+            "level (accidental growth bounded so the documented +-6 re-spelling cannot intervene); octave changes around 0.",
+            "trusted: integer pitch model; snapshots taken through public attributes", "4 C11"),
+    "C12": ("recorded operation histories checked offline against a pitch-set model; OLD-guarded sortedness contract (M-sorted) on the add/remove family",
+            "Exploration: every operation sequence of length <= 3 (quick; 10 648 + shorter) / <= 4 (thorough; 234 256) over a 22-operation "
+            "alphabet with enharmonic names and three octaves, 3 000 / 150 000 random histories of up to 40 operations over 16 names "
+            "(content after every operation, queries sampled), constructors from every chord shorthand x root, 35 names x interval "
+            "shorthands x up/down, numerals x 30 keys. Thorough also runs the repository's container tests under the monitors (record mode).",
+            "trusted: 25-line SetModel (rv/models/containers.py)", "4 C12"),
+    "C13": ("recorded placement histories checked after every operation against an exact rational bar model; M-bar contract; step watchdog on set_meter",
+            "Exploration: every sequence of length <= 2 over 122 operations (60 values x place/rest, '+', remove-last) in 4 meters (quick) / "
+            "length <= 3 over 50 operations (thorough), every value repeated to capacity in 10 meters, 2 000 / 20 000 mixed fills that end "
+            "exactly at capacity, 2 000 / 100 000 random histories of up to 60 / 300 operations incl. bar[i]=x and place_notes_at, meters "
+            "over integers/floats/non-finite units for set_meter.",
+            "trusted: fractions.Fraction BarModel; float tolerance 1e-9 only for reported positions, decisions are judged exactly", "4 C13"),
+    "C14": ("recorded track/composition histories checked after every step against a model track of exact rational bars",
+            "Exploration: 3 000 / 100 000 random add histories over 5 instrument choices, keys, meters, rests, in- and out-of-range notes in "
+            "four argument forms; every sequence of length <= 3 / <= 4 over 12 operations in 4/4 and 3/4; 500 / 20 000 nested chord lists "
+            "for from_chords; instrument range boundaries; 150 / 3 000 composition scripts incl. equality of rebuilt compositions.",
+            "trusted: TrackModel/BarModel; the rule that a bar may be opened before a refused placement (DESIGN 5.6)", "4 C14"),
+    "C15": ("fresh-interpreter (forked) cold-vs-warm comparison of a 900-query battery after random call histories; per-result poison trials; "
+            "sibling-instance snapshots; argument-integrity wrapper (M-args)",
+            "Exploration: 30 / 600 random histories of 200-2 000 calls each started from a cold forked interpreter, battery answers compared "
+            "with a cold interpreter's; 150 / all (~500) poison trials, one forked interpreter each; 19 public classes under operation "
+            "scripts on sibling instances (object state, class-level mutables, fresh instance); copies and constructor arguments; "
+            "2 000 / 100 000 frequency-lookup histories concentrated at the top of the table.",
+            "trusted: os.fork as the source of cold interpreter states; canonical repr of answers", "4 C15"),
+    "C16": ("bytes written by the five write_* functions decoded by an independent Standard MIDI File reader and compared with a tick timeline model",
+            "Exploration: 1 500 / 60 000 random notes/containers/bars/tracks/compositions (30 keys, 8 meters, rounding and integral tick "
+            "lengths, rests everywhere, channels 0-15, velocity 0 class, MIDI instruments, repeat 0-2), systematic 30 keys x 12 meters, "
+            "every value x 6 rest patterns x bar/track x repeat, bpm grid; VLQ encoder on [0, 70 000) / all of [0, 2^21) + boundaries + "
+            "random up to 2^28.",
+            "trusted: rv/models/smf.py (strict structure, permissive content), rv/models/midimodel.py timeline", "4 C16"),
+    "C17": ("write_Composition -> MIDI_to_Composition round trip compared as merged (ticks, pitch set) sequences; corrupted-file fault injection",
+            "Exploration: 800 / 40 000 random compositions restricted to whole-tick values and velocity >= 1; every bpm 4..1000 (+ sample "
+            "to 7 000); 30 keys x 8 meters; VLQ writer->reader on [0, 40 000) / all of [0, 2^21) + boundaries + random; files that are not "
+            "MIDI made by editing valid files: every value of every header/track tag byte, format words 3..300 and 2^k, truncations 0..13, "
+            "empty file (300 sampled / all ~10^4).",
+            "trusted: the sequence-merging rule stated in the property; smf.py to confirm the base files are valid before corruption", "4 C17"),
+    "C18": ("hook events of a recording Sequencer subclass and a recording observer checked offline against a per-voice interval model in virtual time",
+            "Exploration: 1 500 / 50 000 playbacks (note, container, bar, track, parallel bars/tracks/compositions with 1-4 tracks, equal and "
+            "unequal rhythms, tuplets, rests, tempo-carrying containers), control-change grid around the bounds, attach/detach scripts. Two "
+            "known findings (unequal rhythms, float tick drift in play_Bars) are attributed by input shape and exact alternative model; "
+            "everything else must match exactly.",
+            "trusted: interval model (rv/props/c18.py model_parallel); virtual time = running sum of sleep arguments", "4 C18"),
+    "C19": ("LilyPond and MusicXML text decoded by independent readers (own tokenizer/parser; xml.etree) and compared with the written specification",
+            "Exploration: 3 000 / 100 000 random notes, containers, bars, tracks, compositions (names to double accidentals, octaves 0-8, 30 "
+            "keys, 7 meters incl. (0,0), dots to 3, three tuplets, longa/breve, chords 1-5, rests, empty bars, markup characters in "
+            "texts) + systematic every value x rest/note/chord, 30 keys x 7 meters x empty/non-empty, every name x octave.",
+            "trusted: rv/models/ly.py, rv/models/mxml.py", "4 C19"),
+    "C20": ("fret arithmetic swept over all tunings; fingerings vs brute-force specification; tablature text decoded column by column",
+            "Exploration: 76 tunings x strings x notes 0..127 x maxfret {0,12,24}, get_Note ranges, tuning lookups over prefixes x string x "
+            "course constraints, 1 500 / 40 000 note sets vs brute force, 1 680 / ~10 000 chord-fingering searches judged per result, "
+            "2 000 / 60 000 tablature renders (note, container, bar, track, composition; widths 30-200; non-course tunings) decoded by "
+            "an independent reader; renders where an entry has no spare column are skipped and counted.",
+            "trusted: brute-force enumeration, rv/models/tab.py; domain rule read off the rendered beat markers", "4 C20"),
 }
 
 PENDING = {}
